@@ -2,7 +2,7 @@
     with the model's own write indication ([enc_obs05]); helper lemmas. *)
 From Coq Require Import List NArith ZArith Bool Arith Lia Relations.
 From Coq Require Import ZifyN ZifyNat ZifyBool.
-From BBS Require Import Common.Sx Store.Model Store.Wf Store.WfTids Run.RStore Run.R01 Run.R05.
+From BBS Require Import Common.Sx Common.SxFactsMA Store.Model Store.Wf Store.WfTids Run.RStore Run.R01 Run.R05.
 From BBS Require Import Store.P05Cnt Store.P05Frame Store.P05Ops Store.P05Step Store.P05Surv Store.P05Mon
                         Store.P05Inv Store.P05Main Store.P05Touch.
 From BBS Require Import Store.P05WInv Store.P05WRep.
@@ -20,6 +20,19 @@ Proof.
   unfold mon05, run05, mon05w_model, run_x. cbn [sx_list]. f_equal. f_equal.
   rewrite fold_left_combine_map. apply fold_left_ext.
   intros a [e [[s0 s1] mo]]. reflexivity.
+Qed.
+
+(** [run05] and [run_store] differ in the last field only *)
+Lemma enc_obs05_agrees w e s0 s1 mo : obs_agree (enc_obs (w_cfg w) e s0 s1 mo) (enc_obs05 w e s0 s1 mo) = true.
+Proof. unfold obs_agree. destruct mo; cbn [enc_obs enc_obs05 sx_list app firstn]; apply SxFactsMA.sx_eqb_refl. Qed.
+
+Lemma all2b_map {X} (f g : X -> sx) (h : sx -> sx -> bool) : (forall x, h (f x) (g x) = true) ->
+  forall l, all2b h (map f l) (map g l) = true.
+Proof. intros H. induction l as [|x t IH]; cbn; [reflexivity|]. rewrite H, IH. reflexivity. Qed.
+
+Theorem run05_agrees inp : all2b obs_agree (sx_list (run_store inp)) (sx_list (run05 inp)) = true.
+Proof.
+  unfold run_store, run05. cbn [sx_list]. apply all2b_map. intros [e [[s0 s1] mo]]. apply enc_obs05_agrees.
 Qed.
 
 (** ---- accessors on [enc_obs05] ---- *)
